@@ -2,8 +2,8 @@ import MaddyVerif.Model.Errors
 /-!
 Model of `internal/dsn/dsn.go` (and of `framework/address`: `Split`, `ToASCII`, `ToUnicode`,
 `SelectIDNA`): `GenerateDSN`, `ReportingMTAInfo.WriteTo`, `RecipientInfo.WriteTo`,
-`writeHumanReadablePart`, `writeMachineReadablePart`, `writeHeader` (the tree after the fix:
-commits "text/rfc822-headers" and "ASCII Diagnostic-Code").
+`writeHumanReadablePart`, `writeMachineReadablePart`, `writeHeader`, `fieldText` (the tree after the
+fix: commits "text/rfc822-headers", "ASCII Diagnostic-Code" and "control characters in Diagnostic-Code").
 
 The report is kept abstract: the top-level header fields that matter, the media types of the three
 parts, the per-message and per-recipient field groups of the delivery-status part as structured
@@ -195,8 +195,14 @@ inductive GenErr
   | panic
 deriving Repr, DecidableEq
 
-/-- `\n` and `\r` become spaces (`strings.ReplaceAll` twice). -/
-def oneLine (s : Str) : Str := s.map (fun c => if c == 10 || c == 13 then 32 else c)
+/-- A code point that cannot stand in a field value: the C0 controls (CR and LF among them)
+except the horizontal tab, and DEL. -/
+def isCtl (c : Nat) : Bool := (decide (c < 32) && c != 9) || c == 127
+
+/-- `fieldText` of dsn.go: the flattening of an error text into (a part of) a field value —
+total over all strings; CR, LF and every other control character except the horizontal tab
+become a space (`strings.Map`), everything else is copied. -/
+def oneLine (s : Str) : Str := s.map (fun c => if isCtl c then 32 else c)
 
 /-- `ReportingMTAInfo.WriteTo`. -/
 def mtaGroup (ix : Idna) (utf8 : Bool) (m : MtaInfo) : Except GenErr MtaGroup :=
